@@ -131,7 +131,7 @@ def has_raise(summary, pred, exc=("AssertionError",)):
 
 def _outcome(ev, fi, args=None, **kw):
     s = ev.run(fi, args, **kw) if args is not None else ev.run(fi, **kw)
-    return s, rules.decided_outcome(s)
+    return s, rules.strict_outcome(s)
 
 
 def check_parse_and_validate(ctx, oid="C06.2"):
